@@ -87,6 +87,32 @@ type decision struct {
 	opVar  *ast.Ident
 }
 
+// stayCond reads the condition under which a single-operator tier loop goes on — `testOp(p.r, "or")`
+// or `p.r.typ == itemUnion` — given either as the loop condition (`for <cond> {`, negated = false) or
+// as the negated guard of the leading `if <!cond> { break }` (negated = true, i.e. `!testOp(p.r, "or")`
+// or `p.r.typ != itemUnion`).
+func (c *ctx) stayCond(e ast.Expr, recv *ast.Ident, negated bool) (d decision, ok bool) {
+	switch x := unparen(e).(type) {
+	case *ast.UnaryExpr:
+		if x.Op == token.NOT {
+			return c.stayCond(x.X, recv, !negated)
+		}
+	case *ast.CallExpr:
+		if name, ok := c.testOpCall(x, recv); ok && !negated {
+			return decision{ops: []string{name}, mode: opFixed}, true
+		}
+	case *ast.BinaryExpr:
+		want := token.EQL
+		if negated {
+			want = token.NEQ
+		}
+		if x.Op == want && c.isTyp(x.X, recv) && identName(x.Y) != "" {
+			return decision{tokens: [][2]string{{identName(x.Y), ""}}, mode: opAnyLit}, true
+		}
+	}
+	return d, false
+}
+
 // decide reads statement (a) of a tier loop body.
 func (c *ctx) decide(s ast.Stmt, recv *ast.Ident) (d decision, ok bool) {
 	switch x := s.(type) {
@@ -94,19 +120,9 @@ func (c *ctx) decide(s ast.Stmt, recv *ast.Ident) (d decision, ok bool) {
 		if x.Init != nil {
 			return d, false
 		}
-		// if !testOp(p.r, "or") { break }
-		if u, isNot := unparen(x.Cond).(*ast.UnaryExpr); isNot && u.Op == token.NOT && x.Else == nil && onlyBreak(x.Body) {
-			if name, ok := c.testOpCall(u.X, recv); ok {
-				return decision{ops: []string{name}, mode: opFixed}, true
-			}
-			return d, false
-		}
-		// if p.r.typ != itemUnion { break }
-		if b, isBin := unparen(x.Cond).(*ast.BinaryExpr); isBin && b.Op == token.NEQ && x.Else == nil && onlyBreak(x.Body) {
-			if c.isTyp(b.X, recv) && identName(b.Y) != "" {
-				return decision{tokens: [][2]string{{identName(b.Y), ""}}, mode: opAnyLit}, true
-			}
-			return d, false
+		// if !testOp(p.r, "or") { break }   /   if p.r.typ != itemUnion { break }
+		if x.Else == nil && onlyBreak(x.Body) {
+			return c.stayCond(x.Cond, recv, true)
 		}
 		// if p.r.typ == itemStar { op = "*" } else if testOp(..) || testOp(..) { op = p.r.name } else { break }
 		d.mode = opVar
@@ -228,7 +244,7 @@ func (c *ctx) readTier(fd *ast.FuncDecl) (t tier, tokens [][2]string, hasFirst b
 	t.Operand = callee
 	hasFirst = true
 
-	// exactly: first; [Label:] for { … }; return acc
+	// exactly: first; [Label:] for { … } or for <stay condition> { … }; return acc
 	if len(fd.Body.List) != 3 {
 		return
 	}
@@ -237,7 +253,7 @@ func (c *ctx) readTier(fd *ast.FuncDecl) (t tier, tokens [][2]string, hasFirst b
 		loopStmt = ls.Stmt
 	}
 	loop, ok := loopStmt.(*ast.ForStmt)
-	if !ok || loop.Init != nil || loop.Cond != nil || loop.Post != nil || loop.Body == nil {
+	if !ok || loop.Init != nil || loop.Post != nil || loop.Body == nil {
 		return
 	}
 	ret, ok := fd.Body.List[2].(*ast.ReturnStmt)
@@ -245,7 +261,7 @@ func (c *ctx) readTier(fd *ast.FuncDecl) (t tier, tokens [][2]string, hasFirst b
 		return
 	}
 
-	// loop body: [var op string]; decision; p.next(); [tmp := p.callee2(n)]; acc = newOperatorNode(..)
+	// loop body: [var op string]; [decision;] p.next(); [tmp := p.callee2(n)]; acc = newOperatorNode(..)
 	var body []ast.Stmt
 	for _, s := range loop.Body.List {
 		if ds, ok := s.(*ast.DeclStmt); ok {
@@ -263,22 +279,28 @@ func (c *ctx) readTier(fd *ast.FuncDecl) (t tier, tokens [][2]string, hasFirst b
 		}
 		body = append(body, s)
 	}
-	if len(body) != 3 && len(body) != 4 {
+	// `for cond { rest }` is read as `for { if !cond { break }; rest }`
+	var d decision
+	if loop.Cond != nil {
+		d, ok = c.stayCond(loop.Cond, recv, false)
+	} else if len(body) > 0 {
+		d, ok = c.decide(body[0], recv)
+		body = body[1:]
+	} else {
+		ok = false
+	}
+	if !ok || (len(body) != 2 && len(body) != 3) {
 		return
 	}
-	d, ok := c.decide(body[0], recv)
-	if !ok {
-		return
-	}
-	if es, ok := body[1].(*ast.ExprStmt); !ok {
+	if es, ok := body[0].(*ast.ExprStmt); !ok {
 		return
 	} else if x, m, call, ok := methodCall(es.X); !ok || m != "next" || !c.sameIdent(x, recv) || len(call.Args) != 0 {
 		return
 	}
 	var tmp *ast.Ident
 	tmpCallee := ""
-	if len(body) == 4 {
-		a, ok := body[2].(*ast.AssignStmt)
+	if len(body) == 3 {
+		a, ok := body[1].(*ast.AssignStmt)
 		if !ok || a.Tok != token.DEFINE || len(a.Lhs) != 1 || len(a.Rhs) != 1 {
 			return
 		}
